@@ -6,6 +6,7 @@ import copy
 import json
 import os
 import re
+from concurrent.futures import ThreadPoolExecutor
 
 from .. import engine, tlc
 
@@ -51,10 +52,11 @@ def graph_json(g):
 
 
 def run_both(ctx, traces, timeout=2400):
-    """Run the same vectors on the in-tree and the reference binary; returns (rep_intree, rep_ref)."""
-    a = engine.run_driver(ctx, 'statedb', traces, timeout=timeout)
-    b = engine.run_driver(ctx, 'refstatedb', traces, timeout=timeout, module_dir=REF)
-    return a, b
+    """Run the same vectors on the in-tree and the reference binary (concurrently); returns (rep_intree, rep_ref)."""
+    with ThreadPoolExecutor(2) as ex:
+        fa = ex.submit(engine.run_driver, ctx, 'statedb', traces, timeout=timeout)
+        fb = ex.submit(engine.run_driver, ctx, 'refstatedb', traces, timeout=timeout, module_dir=REF)
+        return fa.result(), fb.result()
 
 
 def collect_both(ctx, a, b, traces, graphs=None):
@@ -70,17 +72,27 @@ def collect_both(ctx, a, b, traces, graphs=None):
             t['id'] = tr['id'] + '-history'
             tr = t
         return tr
+    # reference binary: a MISMATCH with the model means the model does not describe the reference -> drift.
+    # A model-independent property observation (kind property/panic) on the reference is not a verdict about the
+    # in-tree code; it is only counted.
     refkeys = set()
     for f in (b.get('failures') or []):
         refkeys.add((f.get('trace'), f.get('step'), f.get('key')))
+        if f.get('kind') in ('property', 'panic'):
+            ctx.cov['reference_property_observations'] = ctx.cov.get('reference_property_observations', 0) + 1
+            continue
         ctx.failures.append({'key': 'reference:' + str(f.get('key')), 'property': False, 'kind': f.get('kind'),
                              'detail': 'reference go-ethereum driver: ' + f.get('detail', '')[:3000], 'action': f.get('action'),
                              'step': f.get('step'), 'want': f.get('want'), 'got': f.get('got'), 'engine': 'refstatedb',
                              'replay': {'engine': 'statedb', 'args': [], 'trace': conv(f)}})
+    # in-tree binary: a mismatch with the model that the reference shows identically is the same drift; a property
+    # observation stays a property observation (then marked as inherited from the reference)
     for f in (a.get('failures') or []):
         same = (f.get('trace'), f.get('step'), f.get('key')) in refkeys
-        ctx.failures.append({'key': f.get('key') or f.get('kind'), 'property': bool(f.get('property')) and not same,
-                             'kind': f.get('kind'), 'detail': f.get('detail', '')[:4000], 'action': f.get('action'),
+        prop = bool(f.get('property')) and not (same and f.get('kind') == 'mismatch')
+        ctx.failures.append({'key': f.get('key') or f.get('kind'), 'property': prop,
+                             'kind': f.get('kind'), 'detail': f.get('detail', '')[:4000] + (' [reference go-ethereum v1.8.27 behaves identically]' if same else ''),
+                             'action': f.get('action'),
                              'step': f.get('step'), 'want': f.get('want'), 'got': f.get('got'), 'engine': 'statedb',
                              'replay': {'engine': 'statedb', 'args': [], 'trace': conv(f)}})
     # the reference's root for every abstract content class must be the in-tree root
@@ -133,76 +145,85 @@ def run(ctx, replay=None):
         return
 
     quick = ctx.tier == 'quick'
-    W = 4 if quick else 8
+    W = 3 if quick else 6
+    TO = 600 if quick else 3000
     traces = []
     graphs = {}
     K3 = ['k1', 'k2', 'k3']
     K6 = ['k1', 'k2', 'k3', 'k4', 'k5', 'k6']
     rnd_km = 4 + ctx.seed  # seeded keymap: six 32-byte keys sharing random nibble-prefix lengths
+    allv = VARIANTS + [('trie', rnd_km, ctx.seed % 5), ('secure', rnd_km, (ctx.seed + 1) % 5)]
 
-    # ---- Trie.tla: exhaustive, graph of the small configuration
-    for name, cfgfile, dump in [('q', 'MC_Trie_q.cfg', True), ('k4', 'MC_Trie_k4.cfg', False)] + \
-                               ([] if quick else [('k6', 'MC_Trie_k6.cfg', False)]):
-        r = engine.tlc_check(ctx, SPEC, 'MC_Trie.tla', cfgfile, name='Trie/' + name, dump=dump, workers=W,
-                             timeout=600 if quick else 3000)
+    # ---- all TLC work runs concurrently (exhaustive checks of Trie.tla / StateDB.tla, simulations)
+    checks = [('Trie', 'q', 'MC_Trie.tla', 'MC_Trie_q.cfg', True), ('Trie', 'k4', 'MC_Trie.tla', 'MC_Trie_k4.cfg', False),
+              ('StateDB', 'q', 'MC_StateDB.tla', 'MC_StateDB_q.cfg', False)]
+    if not quick:
+        checks += [('Trie', 'k6', 'MC_Trie.tla', 'MC_Trie_k6.cfg', False), ('StateDB', 'qf', 'MC_StateDB.tla', 'MC_StateDB_qf.cfg', False),
+                   ('StateDB', 'm', 'MC_StateDB.tla', 'MC_StateDB_m.cfg', False),
+                   ('StateDB', 't', 'MC_StateDB.tla', 'MC_StateDB_t.cfg', False)]
+    sims = [('Trie', 'k6s', 'MC_Trie.tla', 'MC_Trie_k6s.cfg') + ((150, 30) if quick else (1200, 40)),
+            ('StateDB', 'q', 'MC_StateDB.tla', 'MC_StateDB_q.cfg') + ((100, 25) if quick else (1000, 30)),
+            ('StateDB', 'qf', 'MC_StateDB.tla', 'MC_StateDB_qf.cfg') + ((80, 25) if quick else (600, 30)),
+            ('StateDB', 'sim', 'MC_StateDB.tla', 'MC_StateDB_sim.cfg') + ((350, 40) if quick else (4000, 50)),
+            ('StateDB', 'simf', 'MC_StateDB.tla', 'MC_StateDB_simf.cfg') + ((120, 40) if quick else (1500, 50))]
+    with ThreadPoolExecutor(3 if quick else 4) as ex:
+        fchecks = [(c, ex.submit(engine.tlc_check, ctx, SPEC, c[2], c[3], name='%s/%s' % (c[0], c[1]), dump=c[4], workers=W, timeout=TO))
+                   for c in checks]
+        fsims = [(s, ex.submit(tlc.simulate_traces, SPEC, s[2], s[3], s[4], s[5], ctx.seed, drop_vars=DROP, timeout=TO)) for s in sims]
+        rchecks = [(c, f.result()) for c, f in fchecks]
+        rsims = [(s, f.result()) for s, f in fsims]
+
+    for c, r in rchecks:
         if r.violation:
-            ctx.inconclusive.append('spec property %s violated in Trie/%s (specification defect, not a verdict about the code)' % (r.violation, name))
-        if dump and r.scratch:
+            ctx.inconclusive.append('spec property %s violated in %s/%s (specification defect, not a verdict about the code)' % (r.violation, c[0], c[1]))
+        if c[4] and r.scratch:
+            # ---- every edge of the Trie state graph at least once, each path under a key/value concretisation
             g = tlc.parse_dot(os.path.join(r.scratch, 'graph.dot'), drop_vars=DROP)
-            graphs[name] = g
+            graphs[c[1]] = g
             paths, cov, want = tlc.edge_cover_paths(g, ctx.rng, max_len=24)
-            ctx.log('Trie graph %s: %d states %d edges -> %d paths covering %d/%d edges' % (name, len(g.states), len(g.edges), len(paths), cov, want))
+            ctx.log('Trie graph %s: %d states %d edges -> %d paths covering %d/%d edges' % (c[1], len(g.states), len(g.edges), len(paths), cov, want))
             ctx.cov['graph_edges_covered'] = ctx.cov.get('graph_edges_covered', 0) + cov
             ctx.cov['graph_edges_total'] = ctx.cov.get('graph_edges_total', 0) + want
-            vs = VARIANTS + [('trie', rnd_km, ctx.seed % 5), ('secure', rnd_km, (ctx.seed + 1) % 5)]
             for k, p in enumerate(paths):
                 for j in range(1 if quick else 2):
                     t = tlc.path_to_steps(g, p)
-                    v = vs[(k + j * 5 + ctx.seed) % len(vs)]
+                    v = allv[(k + j * 5 + ctx.seed) % len(allv)]
                     t['cfg'] = variant_cfg(v, K3)
-                    t['id'] = 'trie-graph-%s-%d-%s-km%d-vm%d' % (name, k, v[0], v[1], v[2])
+                    t['id'] = 'trie-graph-%s-%d-%s-km%d-vm%d' % (c[1], k, v[0], v[1], v[2])
                     traces.append(t)
         tlc.cleanup(r)
 
     # ---- ALL bounded histories through the graph (history independence), several concretisations
-    depth = 4 if quick else 5
+    depth = 4
     gj = graph_json(graphs['q']) if 'q' in graphs else None
-    gvariants = [('trie', 0, 0), ('trie', 1, 1), ('trie', 2, 2), ('secure', 0, 3), ('trie', rnd_km, ctx.seed % 5)] if quick else \
-        VARIANTS + [('trie', rnd_km, ctx.seed % 5), ('secure', rnd_km, (ctx.seed + 1) % 5)]
+    gvariants = [(4, v) for v in ([('trie', 0, 0), ('trie', 1, 1), ('trie', 2, 2), ('secure', 0, 3), ('trie', rnd_km, ctx.seed % 5)] if quick else allv)]
+    if not quick:
+        gvariants += [(5, ('trie', 0, 2)), (5, ('trie', 2, 1))]
     if gj:
-        for v in gvariants:
-            traces.append({'id': 'triegraph-q-d%d-%s-km%d-vm%d' % (depth, v[0], v[1], v[2]), 'init': None, 'steps': [],
-                           'cfg': dict(variant_cfg(v, K3), kind='triegraph', graph=gj, graph_name='q', depth=depth)})
+        for d, v in gvariants:
+            traces.append({'id': 'triegraph-q-d%d-%s-km%d-vm%d' % (d, v[0], v[1], v[2]), 'init': None, 'steps': [],
+                           'cfg': dict(variant_cfg(v, K3), kind='triegraph', graph=gj, graph_name='q', depth=d)})
+            depth = max(depth, d)
+    else:
+        ctx.inconclusive.append('no Trie state graph was produced')
 
-    # ---- simulated behaviours of the 6-key configuration
-    nsim, dsim = (150, 30) if quick else (1200, 40)
-    r, sims = tlc.simulate_traces(SPEC, 'MC_Trie.tla', 'MC_Trie_k6s.cfg', nsim, dsim, ctx.seed, drop_vars=DROP)
-    ctx.add_tlc('Trie/sim-k6', r, exhaustive=False)
-    vs = VARIANTS + [('trie', rnd_km, ctx.seed % 5), ('secure', rnd_km, (ctx.seed + 1) % 5)]
-    for k, t in enumerate(sims):
-        v = vs[k % len(vs)]
-        t['cfg'] = variant_cfg(v, K6)
-        t['id'] = 'trie-sim-k6-%d-%d-%s-km%d-vm%d' % (ctx.seed, k, v[0], v[1], v[2])
-        traces.append(t)
-    ctx.log('simulated Trie/k6: %d behaviours' % len(sims))
-
-    # ---- StateDB.tla: exhaustive on the small configuration(s), simulated behaviours of small and large ones
-    for name, cfgfile in [('q', 'MC_StateDB_q.cfg')] + ([] if quick else [('t', 'MC_StateDB_t.cfg')]):
-        r = engine.tlc_check(ctx, SPEC, 'MC_StateDB.tla', cfgfile, name='StateDB/' + name, workers=W,
-                             timeout=600 if quick else 3000)
-        if r.violation:
-            ctx.inconclusive.append('spec property %s violated in StateDB/%s (specification defect, not a verdict about the code)' % (r.violation, name))
-    sdb_cfgs = {'q': {'kind': 'statedb', 'addrs': ['a1'], 'slots': ['s1']},
-                'sim': {'kind': 'statedb', 'addrs': ['a1', 'a2'], 'slots': ['s1', 's2']}}
-    for name, cfgfile, num, dp in ([('q', 'MC_StateDB_q.cfg', 300, 25), ('sim', 'MC_StateDB_sim.cfg', 700, 40)] if quick else
-                                   [('q', 'MC_StateDB_q.cfg', 2000, 30), ('sim', 'MC_StateDB_sim.cfg', 6000, 50)]):
-        r, sims = tlc.simulate_traces(SPEC, 'MC_StateDB.tla', cfgfile, num, dp, ctx.seed, drop_vars=DROP, timeout=1200)
-        ctx.add_tlc('StateDB/sim-' + name, r, exhaustive=False)
-        for k, t in enumerate(sims):
-            t['cfg'] = sdb_cfgs[name]
-            t['id'] = 'statedb-sim-%s-%d-%d' % (name, ctx.seed, k)
+    # ---- simulated behaviours
+    sdb_cfgs = {'q': {'kind': 'statedb', 'addrs': ['a1'], 'slots': ['s1'], 'del': True},
+                'qf': {'kind': 'statedb', 'addrs': ['a1'], 'slots': ['s1'], 'del': False},
+                'sim': {'kind': 'statedb', 'addrs': ['a1', 'a2'], 'slots': ['s1', 's2'], 'del': True},
+                'simf': {'kind': 'statedb', 'addrs': ['a1', 'a2'], 'slots': ['s1', 's2'], 'del': False}}
+    for s, (r, ts) in rsims:
+        ctx.add_tlc('%s/sim-%s' % (s[0], s[1]), r, exhaustive=False)
+        for k, t in enumerate(ts):
+            if s[0] == 'Trie':
+                v = allv[k % len(allv)]
+                t['cfg'] = variant_cfg(v, K6)
+                t['id'] = 'trie-sim-%s-%d-%d-%s-km%d-vm%d' % (s[1], ctx.seed, k, v[0], v[1], v[2])
+            else:
+                t['cfg'] = sdb_cfgs[s[1]]
+                t['id'] = 'statedb-sim-%s-%d-%d' % (s[1], ctx.seed, k)
             traces.append(t)
-        ctx.log('simulated StateDB/%s: %d behaviours' % (name, len(sims)))
+        ctx.log('simulated %s/%s: %d behaviours' % (s[0], s[1], len(ts)))
 
     # ---- binding self-test: corrupted expectations must be rejected by the driver
     probes = []
